@@ -245,8 +245,11 @@ func (c *clientPlaySessionHandler) FlushQueuedPluginMessages() {
 }
 
 type (
-	backendConnAdapter struct{ netmc.MinecraftConn }
-	keepAliveAdapter   struct{ *connectedPlayer }
+	backendConnAdapter struct {
+		netmc.MinecraftConn
+		player *connectedPlayer // the client whose play session handler queues the plugin messages
+	}
+	keepAliveAdapter struct{ *connectedPlayer }
 )
 
 var (
@@ -255,7 +258,8 @@ var (
 )
 
 func (b *backendConnAdapter) FlushQueuedPluginMessages() {
-	if h, ok := b.ActiveSessionHandler().(interface{ FlushQueuedPluginMessages() }); ok {
+	// The queue lives in the client's play session handler, not in the backend's handler.
+	if h, ok := b.player.ActiveSessionHandler().(interface{ FlushQueuedPluginMessages() }); ok {
 		h.FlushQueuedPluginMessages()
 	}
 }
@@ -272,7 +276,7 @@ func phaseHandle(
 		player,
 		player,
 		&keepAliveAdapter{player},
-		&backendConnAdapter{backendConn},
+		&backendConnAdapter{MinecraftConn: backendConn, player: player},
 		msg,
 	)
 }
